@@ -124,6 +124,16 @@ std::vector<Sector> decode_mfm_track(const BitStream& bits, bool verbose)
   Sector sec;
   int sec_size;
   enum MfmDecodeState state = MfmDecodeState::LookingForSectorHeader;
+  // The position just after the last sector ID we accepted, and how
+  // far beyond it we are prepared to look for the record which
+  // belongs to it.  A floppy disc controller gives up after a few
+  // tens of byte times (43 for the WD1770 in double density); if we
+  // searched without limit then, when a record's sync and the
+  // following sector's ID are both unreadable, we would return the
+  // following sector's data under this sector's address.
+  size_t id_end_bit = 0;
+  constexpr size_t max_id_to_record_bits = 16u * 60u;
+  constexpr size_t sync_pattern_bits = 64u;
   while (bits_avail)
     {
       // Look for the bytes leading up to an address mark:
@@ -172,6 +182,7 @@ std::vector<Sector> decode_mfm_track(const BitStream& bits, bool verbose)
 						       error))
 		      {
 			state = MfmDecodeState::LookingForRecord;
+			id_end_bit = thisbit;
 			continue;
 		      }
 		  }
@@ -185,6 +196,19 @@ std::vector<Sector> decode_mfm_track(const BitStream& bits, bool verbose)
 	  continue;
 
 	case MfmDecodeState::LookingForRecord:
+	  if (found->first - id_end_bit > max_id_to_record_bits + sync_pattern_bits)
+	    {
+	      // Too far from the ID to be its record.  Look at this
+	      // sync again, as the possible start of a sector header.
+	      if (verbose)
+		{
+		  std::cerr << "No record found for sector " << sec.address
+			    << " close enough to its ID\n";
+		}
+	      state = MfmDecodeState::LookingForSectorHeader;
+	      thisbit = found->first + 1 - sync_pattern_bits;
+	      continue;
+	    }
 	  {
 	    // The data over which the CRC is computed is the three A1 bytes plus:
 	    // byte 0: marker byte (data_address_mark FB or deleted_data_address_mark F8)
